@@ -1,6 +1,9 @@
 /* C04 / CAL-04: getNextLink and KSI_VerificationRule_ExtendedSignatureCalendarChainRightLinksMatch.
  *   -DH_getNextLink    the iteration helper, contract enforced, loop closed by an invariant (every list length)
- *   -DH_rightLinks     the rule, helper replaced by its contract, outer loop closed by an invariant (every pair of lengths) */
+ *   -DH_rightLinks     the rule with the real helper inlined, PLAIN mode (no dfcc), both loops unwound:
+ *                      bounded(links of either chain <= C04_RL_BOUND).  The rule's loop is `for (;;)`: CBMC 6.11 drops a
+ *                      loop contract on a loop without a guard silently, and dfcc + unwinding ran out of memory (12 GB),
+ *                      so the postcondition of contracts/verification_rule_c04_rightlinks.h is asserted by the harness. */
 #define C04_RIGHTLINKS 1
 #include "obligations/C04/c04_prelude.h"
 #include "env/ghost_c04_world.h"
@@ -38,27 +41,56 @@ void harness(void) {
 #endif
 
 #ifdef H_rightLinks
+#ifndef C04_RL_BOUND
+#define C04_RL_BOUND 4
+#endif
 void harness(void) {
 	KSI_VerificationContext *info;
 	KSI_RuleVerificationResult *result;
+	static struct KSI_Signature_st sig0; struct KSI_CalendarHashChain_st sigCal0, extCal0; struct KSI_VerificationContext_st info0; VerificationTempData td0;
 	int res;
 	c04_world_build();
 	c04_rl_world_build();
 	g_c04_rl_want_right = 1;
-#ifdef C04_RL_BOUND
-	__CPROVER_assume(g_c04_rl_len_a <= C04_RL_BOUND);     /* stated bound: links of the signature's chain (the extender's chain is unbounded) */
-#endif
+	__CPROVER_assume(g_c04_rl_len_a <= C04_RL_BOUND && g_c04_rl_len_b <= C04_RL_BOUND);     /* stated bound */
+	__CPROVER_assume(c04_wf_times() && c04_wf_hashes());
 	info = nondet_bool() ? &g_c04_info : NULL;
 	result = nondet_bool() ? &g_c04_result : NULL;
 	g_c04_result.resultCode = KSI_VER_RES_NA;
 	g_c04_result.errorCode = KSI_VER_ERR_GEN_2;
 	g_c04_result.status = KSI_OK;
+	sig0.calendarChain = g_c04_sig.calendarChain; sig0.aggregationChainList = g_c04_sig.aggregationChainList; sig0.calendarAuthRec = g_c04_sig.calendarAuthRec; sig0.publication = g_c04_sig.publication;
+	sigCal0 = g_c04_sigCal; extCal0 = g_c04_extCal; info0 = g_c04_info; td0 = g_c04_td;
+
 	res = KSI_VerificationRule_ExtendedSignatureCalendarChainRightLinksMatch(info, result);
+
+	/* the postcondition of the contract (C04_VERDICT + witness), asserted */
+	if (result == NULL) __CPROVER_assert(res == KSI_INVALID_ARGUMENT, "CAL-04 postcondition: no result object => KSI_INVALID_ARGUMENT");
+	else {
+		__CPROVER_assert(spec_c04_verdict_matches(c04_case_ExtendedSignatureCalendarChainRightLinksMatch(info), SPEC_C04_CAL_4, res, result->resultCode, result->errorCode),
+			"CAL-04 postcondition: OK <=> same number of right links, pairwise equal; otherwise FAIL CAL-04; not evaluable => NA");
+		__CPROVER_assert(IMPLIES(res == KSI_OK && result->resultCode == KSI_VER_RES_FAIL, c04_rl_mismatch_witnessed()), "CAL-04 postcondition: FAIL only on a difference actually seen");
+		__CPROVER_assert(IMPLIES(!C04_ARGS_OK(info), res == KSI_INVALID_ARGUMENT), "CAL-04 postcondition: invalid context reported");
+	}
+	__CPROVER_assert(c04_resources_balanced(), "CAL-04 postcondition: nothing leaked or released");
+	/* frame: signature, chains, context and tempData untouched */
+	__CPROVER_assert(sig0.calendarChain == g_c04_sig.calendarChain && sig0.aggregationChainList == g_c04_sig.aggregationChainList
+		&& sig0.calendarAuthRec == g_c04_sig.calendarAuthRec && sig0.publication == g_c04_sig.publication
+		&& sigCal0.publicationTime == g_c04_sigCal.publicationTime && sigCal0.aggregationTime == g_c04_sigCal.aggregationTime && sigCal0.inputHash == g_c04_sigCal.inputHash
+		&& sigCal0.outputHash == g_c04_sigCal.outputHash && sigCal0.hashChain == g_c04_sigCal.hashChain
+		&& extCal0.publicationTime == g_c04_extCal.publicationTime && extCal0.aggregationTime == g_c04_extCal.aggregationTime && extCal0.inputHash == g_c04_extCal.inputHash
+		&& extCal0.outputHash == g_c04_extCal.outputHash && extCal0.hashChain == g_c04_extCal.hashChain
+		&& info0.signature == g_c04_info.signature && info0.tempData == g_c04_info.tempData && info0.userPublication == g_c04_info.userPublication
+		&& info0.userPublicationsFile == g_c04_info.userPublicationsFile && info0.extendingAllowed == g_c04_info.extendingAllowed
+		&& td0.calendarChain == g_c04_td.calendarChain && td0.publicationsFile == g_c04_td.publicationsFile && td0.aggregationOutputHash == g_c04_td.aggregationOutputHash,
+		"CAL-04 frame: signature, chains, context and tempData are not modified");
+
 	REACH("rule returns");
 	if (result != NULL && res == KSI_OK && result->resultCode == KSI_VER_RES_OK) REACH("verdict OK");
-	if (result != NULL && res == KSI_OK && result->resultCode == KSI_VER_RES_OK && g_c04_rl.rl.compared > 2) REACH("verdict OK after several compared pairs");
+	if (result != NULL && res == KSI_OK && result->resultCode == KSI_VER_RES_OK && g_c04_rl.rl.compared >= 2 && g_c04_rl_len_b > g_c04_rl_len_a) REACH("verdict OK after several compared pairs, chains of different length");
 	if (result != NULL && res == KSI_OK && result->resultCode == KSI_VER_RES_FAIL && g_c04_rl.rl.unequal) REACH("verdict FAIL: unequal right link");
-	if (result != NULL && res == KSI_OK && result->resultCode == KSI_VER_RES_FAIL && !g_c04_rl.rl.unequal) REACH("verdict FAIL: different number of right links");
+	if (result != NULL && res == KSI_OK && result->resultCode == KSI_VER_RES_FAIL && !g_c04_rl.rl.unequal && g_c04_rl.a_calls == g_c04_rl_len_a) REACH("verdict FAIL: extender chain has more right links");
+	if (result != NULL && res == KSI_OK && result->resultCode == KSI_VER_RES_FAIL && !g_c04_rl.rl.unequal && g_c04_rl.b_calls == g_c04_rl_len_b) REACH("verdict FAIL: signature chain has more right links");
 	if (result != NULL && res != KSI_OK && c04_rl_setup_ok(info)) REACH("fetch error reported");
 	if (result != NULL && res == KSI_INVALID_ARGUMENT) REACH("invalid argument reported");
 }
